@@ -298,6 +298,62 @@ func corpus(e *ev.Env) {
 			})
 		}
 	}
+	for _, src := range [][2]string{{"cookie", "sid"}, {"header", "X-Session-Id"}, {"query", "sid"}} {
+		src := src
+		// keys of every comparable type belong to the handler: never-set keys are absent on a fresh
+		// session, writing or deleting them does not touch the session's deadlines
+		e.Corpus("typed-keys-"+src[0], func(c *ev.Case) {
+			for _, vst := range []bool{true, false} {
+				cfg := cfgT{Source: src[0], Name: src[1], VStore: vst, Idle: 3 * sec, Abs: 4 * sec}
+				all := []op{get("#int:0"), get("#int:1"), get("#uint:0"), get("#bool:false"), get("#string:"), get("#struct:zero"), get("#int64:0"), get("#float64:0")}
+				runFixed(e, c, cfg, 1, []cstep{
+					{mw: true, ops: append(append([]op{}, all...), set("#int:0", "v0.1"), set("#bool:false", "v0.2"), set("#struct:zero", "v0.3"), set("#string:", "v0.4"))},
+					{adv: 1400 * ms, present: "@jar", ops: append(append([]op{}, all...), op{K: "del", Key: "#int:0"}, set("#uint:0", "v0.5"), k("save"))},
+					{adv: 1400 * ms, mw: true, present: "@jar", ops: append(append([]op{}, all...), set("#int:0", "v0.6"))}, // 2.8 s
+					{adv: 1400 * ms, mw: true, present: "@jar", ops: all},                                                   // 4.2 s: gone
+					{ops: append(append([]op{}, all...), op{K: "byid", Tgt: "@first"})},
+				})
+			}
+		})
+		// a storage that keeps the slices it is given: sessions saving alternately keep their own data
+		e.Corpus("retaining-storage-"+src[0], func(c *ev.Case) {
+			cfg := cfgT{Source: src[0], Name: src[1], VStore: true, Retain: true, Idle: 5 * sec, Abs: 9 * sec}
+			for _, mw := range []bool{true, false} {
+				fin := func(ops ...op) []op {
+					if !mw {
+						ops = append(ops, k("save"))
+					}
+					return ops
+				}
+				runFixed(e, c, cfg, 3, []cstep{
+					{client: 0, mw: mw, ops: fin(set("k0", "v0.1"), set("k1", "v0.2"))},
+					{client: 1, mw: mw, ops: fin(set("k0", "v1.1"))},
+					{client: 0, mw: mw, present: "@jar", ops: fin(get("k0"), get("k1"), set("k2", "v0.3"))},
+					{client: 2, mw: !mw, ops: []op{set("k3", "v2.1"), set("#int:1", "v2.2"), k("save")}},
+					{client: 1, mw: mw, present: "@jar", ops: fin(get("k0"), get("k1"), set("k0", "v1.2"))},
+					{client: 0, mw: mw, present: "@jar", ops: fin(get("k0"), get("k2"))},
+					{client: 2, mw: mw, present: "@jar", ops: fin(get("k3"), get("#int:1"))},
+					{client: 1, mw: !mw, present: "@jar", ops: []op{get("k0"), {K: "byid", Tgt: "@c0jar"}, k("save")}},
+				})
+			}
+		})
+		// ids as real KeyGenerators produce them (base64 with + / =, base64url, hex, UUID, literal %)
+		for _, style := range idStyles[1:] {
+			style := style
+			e.Corpus("id-alphabet-"+style+"-"+src[0], func(c *ev.Case) {
+				for _, vst := range []bool{true, false} {
+					cfg := cfgT{Source: src[0], Name: src[1], VStore: vst, IDs: style, Idle: 5 * sec}
+					runFixed(e, c, cfg, 1, []cstep{
+						{mw: true, ops: []op{set("k0", "v0.1")}},
+						{mw: true, present: "@jar", ops: []op{get("k0"), set("k1", "v0.2")}},
+						{present: "@jar", ops: []op{get("k0"), get("k1"), k("regen"), set("k2", "v0.3"), k("save")}},
+						{present: "@jar", ops: []op{get("k2"), {K: "byid", Tgt: "@jar"}, {K: "byid", Tgt: "@first"}}},
+						{mw: true, present: "@first", ops: []op{get("k0")}},
+					})
+				}
+			})
+		}
+	}
 	// KeyLookup names with upper-case letters: the id presented under the configured name is found
 	for _, nm := range [][2]string{{"cookie", "Session_ID"}, {"query", "SID"}, {"header", "X-SESSION-Id"}} {
 		nm := nm
